@@ -29,11 +29,25 @@ const (
 
 var std = lib.Std()
 
+func init() { harness.InLibraryFor = lib.InLibraryFor }
+
 // standard hook configuration of the sequential monitors: released buffers are
 // poisoned, keys are scrambled before the library sorts them.
 func hooksOn() {
 	hooks.Configure(hooks.Options{PoisonContainers: true, PoisonKeys: true, ScrambleKeys: 4})
 	hooks.ResetCounters()
+}
+
+// hooksAlternate is for the relational (oracle-free) monitors: poisoning released buffers turns a
+// use-after-release into a failure, and a failure that hits BOTH sides of a relation keeps the relation
+// intact; so every second case runs with the poison off (scrambling stays on) and the stale data is
+// what the relation sees.
+func hooksAlternate(k int) {
+	if k%2 == 0 {
+		hooks.Configure(hooks.Options{PoisonContainers: true, PoisonKeys: true, ScrambleKeys: 4})
+	} else {
+		hooks.Configure(hooks.Options{ScrambleKeys: 4})
+	}
 }
 
 func reportHooks(c *harness.Ctx) {
